@@ -402,6 +402,13 @@ func keyTokenIndex(e *Env, v ssa.Value, depth int) (LE, bool) {
 		if a, pe := e.actual(x); a != nil {
 			return keyTokenIndex(pe, a, depth+1)
 		}
+	case *ssa.UnOp:
+		if w, we := e.ctorField(x); w != nil {
+			return keyTokenIndex(we, w, depth+1)
+		}
+		if f := forwarded(x); f != nil {
+			return keyTokenIndex(e, f, depth+1)
+		}
 	case *ssa.Call:
 		if b, ok := x.Call.Value.(*ssa.Builtin); ok && b.Name() == "append" && len(x.Call.Args) == 2 {
 			if _, ok := e.P.constPrefixContent(x.Call.Args[0]); ok {
